@@ -41,3 +41,8 @@ neg "merge table called with another id"       r11-2-2 's/vehiclesByID\.merge\(\
 neg "numbers filled from the groups in reverse" r11-5-6 's/match\[i\+1\]/match[3-i]/' realtime.go C02
 neg "membership predicate admits an undeclared value" r11-1-6 's/RouteType_Monorail:/RouteType_Monorail, RouteType(9):/' enums.go C12
 neg "stop time helper handed another extension" r11-2-1 's/parseStopTimeUpdate\(stopTimeUpdate, timezone, opts\.Extension\)/parseStopTimeUpdate(stopTimeUpdate, timezone, extensions.NoExtension())/' realtime.go C02
+neg "options helper builds its copy without the timezone" r12-2-4 's/optsCopy := \*opts\n/optsCopy := ParseRealtimeOptions{}\n/' realtime.go C02
+neg "dispatcher leaves the vehicle of a trip update out" r13-2-3 's/\t\ttrip, vehicle, ok := parseTripUpdate\(entity\.TripUpdate, opts\)\n\t\treturn parsedEntity\{trip: trip, vehicle: vehicle\}, ok/\t\ttrip, _, ok := parseTripUpdate(entity.TripUpdate, opts)\n\t\treturn parsedEntity{trip: trip}, ok/' realtime.go C04 C07
+neg "dispatcher form: id-bearing vehicle reaches the unkeyed list" r13-2-3 's/if vehicle\.ID != nil \{\n\t\t\t\tif _, ok := vehiclesByID/if vehicle.ID != nil \&\& vehicle.ID.ID != "" {\n\t\t\t\tif _, ok := vehiclesByID/' realtime.go C07
+neg "tracker never replaces the set of active trips" r13-3-6 's/\tt\.active = newActive\n/\t_ = newActive\n/' journal/journal.go C15
+neg "tracker deletes finished trips from its table" r13-3-6 's/\t\t\tt\.trips\[tripUID\]\.markPast\(createdAt\)\n/\t\t\tt.trips[tripUID].markPast(createdAt)\n\t\t\tif len(t.trips) > 1000000 {\n\t\t\t\tdelete(t.trips, tripUID)\n\t\t\t}\n/' journal/journal.go C05
